@@ -50,6 +50,7 @@ def build():
     return binp, None
 
 
+@vflib.serialized("run_serde")
 def run_serde(tier, seed, corpus=None, tag=""):
     """returns dict(rows, mismatches {case_idx: [subchecks]}, classes {case_idx: [bits]}, errors, meta, dir)"""
     sz = sizes(tier)
